@@ -2,6 +2,7 @@ import QR.Model.Cli
 import QR.Proofs.Segmentation
 import QR.Proofs.Pinned
 import QR.Proofs.SourceTieT6
+import QR.Proofs.SourceTieD6c
 /-
 C17 - the `qr` command: decision logic (payload, options, sink independence, rejection).
 The image/ASCII output then decodes to the payload by C01 + C12/C13/C15 (renderers) - composed by the oracle sweep.
@@ -175,6 +176,52 @@ theorem C17_source_cli_empty_option_model (i : CliInput) (l : Nat) (hl : Gen.CLI
   QR.SourceTieT.cli_empty_option_model i l hl
 
 end SourceTieT2b
+
+/-! ### Source tie, part 4 (T2 plugin `tools/t2_fragments/frag_d6.py`): small leftovers, translated whole from /repo's current
+    Python AST (`QR.Gen.Code.lo_*`, regenerated on every run). Restated verbatim from `QR/Proofs/SourceTieD6*.lean`. -/
+section SourceTieD6
+open QR.Model QR.Gen.Code QR.SourceTieD6
+
+/-- `console_scripts.commas(items, joiner="or")`: empty and one-element inputs -/
+theorem C17_source_commas_small (a j : String) :
+    lo_commas_joiner_default = "or" ∧ lo_commas [] j = "" ∧ lo_commas [a] j = a :=
+  ⟨QR.SourceTieD6.commas_literals, QR.SourceTieD6.commas_nil j, QR.SourceTieD6.commas_single a j⟩
+
+/-- `console_scripts.commas`: two or more items - all but the last joined by ", ", the joiner between spaces, the last -/
+theorem C17_source_commas_many (init : List String) (last j : String) (h : init ≠ []) :
+    lo_commas (init ++ [last]) j = lo_py_join ", " init ++ " " ++ j ++ " " ++ last :=
+  QR.SourceTieD6.commas_many init last j h
+
+/-- `commas(default_factories)` (the `--factory` help of `console_scripts.main`) on the regenerated `Gen.CLI_FACTORIES` -/
+theorem C17_source_commas_default_factories :
+    lo_commas (Gen.CLI_FACTORIES.map (·.1)) lo_commas_joiner_default = "pil, png, svg, svg-fragment, svg-path or pymaging" :=
+  QR.SourceTieD6.commas_default_factories
+
+/-- one iteration of the loop of `console_scripts.get_drawer_help`: failed import / missing or empty `drawer_aliases` skip -/
+theorem C17_source_gdh_step_src {Img : Type} (imp : String → Option Img) (attr : Img → Option (List String))
+    (help : List (String × List String)) (alias path : String) :
+    lo_gdh_step imp attr help alias path =
+      match (imp path).bind attr with
+      | none => help
+      | some [] => help
+      | some (a :: as) => lo_py_setdefault_add help (lo_commas (a :: as) "or") alias :=
+  QR.SourceTieD6.gdh_step_src imp attr help alias path
+
+/-- `console_scripts.get_drawer_help()` on the regenerated `default_factories` with the drawer aliases `Model.drawerAliases`
+    accepts: the help text names exactly the SVG factories and their three aliases -/
+theorem C17_source_get_drawer_help_src :
+    lo_get_drawer_help (Img := String) (fun path => some path) (fun path => some (drawerAliases (some path)))
+      Gen.CLI_FACTORIES = "For svg and svg-path, use: circle, gapped-circle or gapped-square" :=
+  QR.SourceTieD6.get_drawer_help_src
+
+/-- the factories `get_drawer_help` lists are exactly those for which `Model.drawerAliases` is non-empty -/
+theorem C17_source_get_drawer_help_factories :
+    ((Gen.CLI_FACTORIES.foldl (fun d kv => lo_gdh_step (Img := String) (fun path => some path)
+        (fun path => some (drawerAliases (some path))) d kv.1 kv.2) []).flatMap (·.2)) =
+      (Gen.CLI_FACTORIES.map (·.1)).filter (fun k => !(drawerAliases (some k)).isEmpty) :=
+  QR.SourceTieD6.get_drawer_help_factories
+
+end SourceTieD6
 
 /-- the Python functions this property's model mirrors have, in /repo's current working tree, exactly the normalised
     ASTs the model was written and validated against (fingerprints regenerated by T1 on every run) -/
